@@ -69,7 +69,8 @@ def run(chk: Check):
         sim, real, shape = gen_data(rng, e, n, d)
         weights = rng.choice([None, None, [rng.random() + 0.05 for _ in range(d)]])
         wnp = None if weights is None else np.array(weights)
-        which = rng.choice(["minkowski", "msm", "fourier", "gsl", "likelihood"]) if ci >= 3 else "gsl"     # the first three: long structured GSL-div cases
+        which = rng.choice(["minkowski", "msm", "fourier", "gsl", "likelihood"]) if ci >= 5 else ["gsl", "gsl", "gsl", "fourier", "fourier"][ci]
+        # (the first three: long structured GSL-div cases; then two Fourier cases whose cut-off f*n_freq is an exact half-integer tie)
         chk.count("loss:" + which); chk.count("data:" + shape)
         case = {"case": {"loss": which, "E": e, "N": n, "D": d, "shape": shape, "weights": weights}}
         with warnings.catch_warnings(), np.errstate(all="ignore"):
@@ -114,6 +115,11 @@ def run(chk: Check):
                 elif which == "fourier":
                     f = rng.choice([0.1, 0.25, 0.5, 0.8, 1.0, rng.uniform(0.05, 1.0)])
                     kind = rng.choice(["gaussian", "ideal"])
+                    if ci in (3, 4):
+                        # n_freq = n//2 + 1 odd and f = 0.5: f*n_freq = k + 0.5 — np.round goes to the even neighbour (both parities of k are used)
+                        n = [24, 12][ci - 3] if rng.random() < 0.5 else [8, 20][ci - 3]
+                        sim, real, shape = gen_data(rng, e, n, d)
+                        f, kind = 0.5, ["ideal", "gaussian"][ci - 3]
                     if kind == "gaussian" and round(f * (n // 2 + 1)) < 1:
                         f = 0.5          # a Gaussian mask of width round(f*n_freq) = 0 is degenerate (0/0); outside 'admissible options'
                     got = float(FourierLoss(frequency_filter=gaussian_low_pass_filter if kind == "gaussian" else ideal_low_pass_filter, f=f,
@@ -187,6 +193,23 @@ def run(chk: Check):
         chk.count("numeric_tolerance_cases")
         if not close(got, want, tol, 1e-9):
             chk.fail(f"{which} {case['case']['options']}: implementation {got!r}, documented definition {want!r}", case)
+    # long series whose level is far above their spread: the likelihood must still be the definition (a squared distance obtained
+    # from |x|^2 + |y|^2 - 2 x.y instead of from the differences loses everything there)
+    for big in range(1 if chk.tier == "quick" else 3):
+        prng = np.random.default_rng(rng.randrange(10 ** 9))
+        R, S, D = 2, rng.choice([1500, 1600]), 2
+        level = rng.choice([3e7, -5e6, 1e8])
+        simb = level + prng.standard_normal((R, S, D)); realb = level + prng.standard_normal((S, D))
+        hb = rng.choice(["silverman", 0.5])
+        with warnings.catch_warnings(), np.errstate(all="ignore"):
+            warnings.simplefilter("ignore")
+            gotb = float(LikelihoodLoss(h=hb).compute_loss(simb, realb))
+        wantb = ref.likelihood_big(simb, realb, hb)
+        caseb = {"case": {"loss": "likelihood", "E": R, "N": S, "D": D, "shape": "long_offset_dominated", "level": level, "options": {"h": hb}}}
+        chk.case(["likelihood-big", R, S, D, level, str(hb)], True, {"loss": "likelihood", "R": R, "S": S, "D": D, "level": level, "value": gotb, "reference": wantb})
+        chk.count("likelihood:long_offset_dominated")
+        if not close(gotb, wantb, 1e-6, 1e-9):
+            chk.fail(f"likelihood on long series (R*T*S*D = {R * S * S * D}) at level {level:g}: implementation {gotb!r}, documented definition {wantb!r}", caseb)
     # Fourier, GSL-div, likelihood: implementation vs the executable Lean model, coordinate by coordinate (tolerance: sums are ordered differently)
     flat = [r for *_, rs in model_lean for r in rs]
     answers = iter(lean_run(flat)) if flat else iter([])
